@@ -354,7 +354,9 @@ def replay_cex(case, built, cex):
         if addr not in spec_target_contracts(filters, deployed, L.TEST_ADDR):
             return False, f"call {i}: contract {hex(addr)} is not a target under the contract filters"
         sigs = spec_selectors(filters, addr, L.TEST_ADDR, [(s_, n_, m_) for s_, n_, m_, _ in meths.get(addr, [])])
-        if not any(n_.to_bytes(4, "big") == data[:4] for s_, n_, m_, _ in meths.get(addr, []) if s_ in sigs):
+        # (a call of a view / pure function cannot change the state: tolerated here; that halmos
+        #  selects such functions at all is reported separately as selector over-selection)
+        if not any(n_.to_bytes(4, "big") == data[:4] for s_, n_, m_, _ in meths.get(addr, []) if s_ in sigs or m_ in ("view", "pure")):
             return False, f"call {i}: selector 0x{data[:4].hex()} is not a target selector of {hex(addr)}"
         acc2 = {a: dict(x) for a, x in accounts.items()}
         if val:
